@@ -164,6 +164,31 @@ pub fn run(ctx: &mut Ctx) {
             }
         }
     }
+    // ---- the same tails at the far end of the 16-bit length range: sealing attributes that start at
+    //      or beyond byte 65 536 of the buffer, and just below it
+    {
+        let creds = RefCreds::Short("edge".into());
+        let sizes: Vec<usize> = (65_480..=65_552).step_by(4).chain([32_768usize, 32_772, 65_280, 65_300]).collect();
+        for tail in &tails {
+            if tail.is_empty() {
+                continue;
+            }
+            for &total in &sizes {
+                idx += 1;
+                if !ctx.mine(idx) {
+                    continue;
+                }
+                let mut rng = ctx.rng("edge-tails", idx);
+                let buf = crate::gen::msg::gen_boundary_message(&mut rng, total, tail, &creds);
+                let o = Opts { creds: vec![creds.clone()], police: vec![(vec![], vec![])], deep: false, typed: false };
+                let out = check_buffer(ctx, &buf, &o);
+                ctx.eval();
+                if out.impl_accepted && buf.len() > 65_536 {
+                    ctx.count("edge-tail-accepted-beyond-65536");
+                }
+            }
+        }
+    }
     // ---- grammar stream + skeletons (mutants included: accepted ones must follow the rule too)
     let n = ctx.n(600_000, 8_000_000);
     grammar_stream(ctx, &cfg, n, 4);
@@ -172,6 +197,7 @@ pub fn run(ctx: &mut Ctx) {
     ctx.require("tail-rejected", 1_000);
     ctx.require("tail-replacement", 500);
     ctx.require("hmac-replays", 5_000);
+    ctx.require("edge-tail-accepted-beyond-65536", 20);
     ctx.require("policed-with-hidden-attributes", 500);
     ctx.require("validate-ok", 500);
 }
